@@ -263,10 +263,14 @@ func c07HistoryPairs(r *run.Run) {
 	alphabet := []glyph.ID{gen.GA, gen.GB, gen.GM, gen.GL}
 	flags := []int{0, 1, 4}
 	var first, second [][]glyph.ID
-	gen.Sequences(alphabet, 3, func(g []glyph.ID) bool { first = append(first, append([]glyph.ID{}, g...)); return true })
-	gen.Sequences(alphabet, 4, func(g []glyph.ID) bool { second = append(second, append([]glyph.ID{}, g...)); return true })
+	l1, l2 := 3, 4
+	if !r.Quick() {
+		l1, l2 = 4, 5
+	}
+	gen.Sequences(alphabet, l1, func(g []glyph.ID) bool { first = append(first, append([]glyph.ID{}, g...)); return true })
+	gen.Sequences(alphabet, l2, func(g []glyph.ID) bool { second = append(second, append([]glyph.ID{}, g...)); return true })
 	r.Explore(explore.Config{Name: "C07.history-pairs", Deadline: r.PartDeadline(0.3)},
-		fmt.Sprintf("every simple GSUB and GPOS lookup of the menus x flags {none, ignore marks, mark set 0} on ALL ordered pairs (first sequence of length <= 3, second of length <= 4 over {A,B,M,L}: %d x %d pairs): Apply(second) on the Context that has just processed the first equals Apply(second) on a fresh Context", len(first), len(second)),
+		fmt.Sprintf("every simple GSUB and GPOS lookup of the menus x flags {none, ignore marks, mark set 0} on ALL ordered pairs (first sequence of length <= 3 (quick) / 4, second of length <= 4 / 5 over {A,B,M,L}: %d x %d pairs): Apply(second) on the Context that has just processed the first equals Apply(second) on a fresh Context", len(first), len(second)),
 		func(c *explore.Ctx) {
 			gpos := c.Bool("gpos")
 			menu := gen.GsubSimple
